@@ -28,19 +28,19 @@ type Violation struct {
 
 // CaseResult is what one case reports back.
 type CaseResult struct {
-	Idx          int              `json:"idx"`
-	Name         string           `json:"name,omitempty"`
-	Hash         string           `json:"hash,omitempty"`
-	NonTrivial   bool             `json:"nontrivial,omitempty"`
-	Effective    bool             `json:"effective,omitempty"`
-	Features     []string         `json:"features,omitempty"`
-	Events       map[string]int64 `json:"events,omitempty"`
+	Idx          int                 `json:"idx"`
+	Name         string              `json:"name,omitempty"`
+	Hash         string              `json:"hash,omitempty"`
+	NonTrivial   bool                `json:"nontrivial,omitempty"`
+	Effective    bool                `json:"effective,omitempty"`
+	Features     []string            `json:"features,omitempty"`
+	Events       map[string]int64    `json:"events,omitempty"`
 	Sets         map[string][]string `json:"sets,omitempty"` // named sets whose union size is reported (distinct things seen)
-	Violations   []Violation      `json:"violations,omitempty"`
-	Inconclusive string           `json:"inconclusive,omitempty"`
-	Sample       json.RawMessage  `json:"sample,omitempty"`
-	Crash        string           `json:"crash,omitempty"` // worker died / harness panic while running this case
-	Discarded    string           `json:"discarded,omitempty"`
+	Violations   []Violation         `json:"violations,omitempty"`
+	Inconclusive string              `json:"inconclusive,omitempty"`
+	Sample       json.RawMessage     `json:"sample,omitempty"`
+	Crash        string              `json:"crash,omitempty"` // worker died / harness panic while running this case
+	Discarded    string              `json:"discarded,omitempty"`
 }
 
 func (r *CaseResult) Ev(name string, n int64) {
